@@ -1,4 +1,5 @@
 import CoxeterVerif.Vec
+import CoxeterVerif.Model.ChainCheck
 /-!
   Specification layer for C05 (no Mathlib): what "the point belongs to the solid" means.
 
@@ -65,6 +66,89 @@ def inTets (Ts : List (Tet α)) (p : V3 α) : Bool := Ts.any fun T => inTet T p
 
 /-- number of tetrahedra of `Ts` that contain `p` -/
 def countTets (Ts : List (Tet α)) (p : V3 α) : Nat := (Ts.filter fun T => inTet T p).length
+
+/-! ### signed ray-crossing number (the classical winding number of a closed oriented surface) -/
+
+/-- sign of a scalar as an integer -/
+def sign (x : α) : Int := if lit 0 < x then 1 else if x < lit 0 then -1 else 0
+
+/-- signed number of tetrahedra of `Ts` containing `p` (orientation sign of each) -/
+def signedCount (Ts : List (Tet α)) (p : V3 α) : Int :=
+  (Ts.map fun T => if inTet T p then sign (orient T.a T.b T.c T.d) else 0).sum
+
+/-- `p` lies on none of the face planes of the tetrahedra `Ts` (exact test) -/
+def offPlanes (Ts : List (Tet α)) (p : V3 α) : Bool :=
+  Ts.all fun T => (bary T p).all fun x => !(Scalar.eqb x (lit 0))
+
+/-- genericity of `p` w.r.t. the tetrahedron `T` with distinguished first vertex `T.a` (the apex of a
+    cone tetrahedron): EITHER `p` is on none of the three face planes through `T.a` and not on the
+    closed face opposite to `T.a` (it may lie elsewhere in the plane of that face), OR `p` lies on
+    the line of exactly one edge of the opposite face, outside the closed edge. -/
+def offApex (T : Tet α) (p : V3 α) : Bool :=
+  let z0 := Scalar.eqb (orient p T.b T.c T.d) (lit 0)
+  let z1 := Scalar.eqb (orient T.a p T.c T.d) (lit 0)
+  let z2 := Scalar.eqb (orient T.a T.b p T.d) (lit 0)
+  let z3 := Scalar.eqb (orient T.a T.b T.c p) (lit 0)
+  (!z1 && !z2 && !z3 && (!z0 || !(inTet T p))) ||
+  (z0 && !(inTet T p) && ((z1 && !z2 && !z3) || (!z1 && z2 && !z3) || (!z1 && !z2 && z3)))
+
+/-- for cone tetrahedra `(o, t)`: `p` not ON a surface triangle and, except where forced by `p`
+    lying on the line of an edge of a triangle, on no side plane of a cone (`p` may be coplanar with
+    surface triangles and collinear with edges — e.g. lattice points of a voxel solid) -/
+def offCone (Ts : List (Tet α)) (p : V3 α) : Bool := Ts.all fun T => offApex T p
+
+/-- the cone tetrahedra `(o, a, b, c)` over the triangles of a surface -/
+def coneTets (o : V3 α) (S : List (Tri α)) : List (Tet α) := S.map fun t => ⟨o, t.a, t.b, t.c⟩
+
+/-- **signed ray-crossing number.**  `p ∈ tet(o, t)` iff the ray from `p` pointing away from `o`
+meets the triangle `t`; the orientation sign of `(o, t)` says whether the ray leaves (+1) or enters
+(−1) through `t`.  For a closed oriented surface this sum is the winding number of `S` about `p`
+(for `o`, `p` in general position). -/
+def rayWinding (o : V3 α) (S : List (Tri α)) (p : V3 α) : Int := signedCount (coneTets o S) p
+
+/-! ### facet-completeness certificate for a convex polyhedron (evaluated exactly over ℚ)
+
+The certificate consists of convex weights `ws` (so that `o = Σ wᵢ vᵢ` is a point of the hull), the
+faces of the polyhedron cut into triangles, each paired with the plane equation `(n, d)` of its
+face, a margin `m ≥ 0` and a box radius `R`.  `facetCert` checks, exactly:
+  * the weights are non-negative and sum to one;
+  * the triangles form a closed oriented surface (`closedCheck`) with vertices among `V`;
+  * `o` is strictly on the inner side of every triangle and of every plane;
+  * the three vertices of a triangle miss the plane of its face (on either side) by so little
+    (`η = |n·v + d|`) that `η · R · spread ≤ orient(o, t) · m`.
+`Props/C05.lean` (`cp_mem_hull_of_inside_cert`) proves: then EVERY point of the box `|p − o|∞ ≤ R`
+whose plane distances are all `< −m` is a convex combination of `V`. -/
+
+/-- `n·x + d` -/
+def planeVal (n : V3 α) (d : α) (x : V3 α) : α := V3.dot x n + d
+
+/-- `|v.x| + |v.y| + |v.z|` -/
+def l1 (v : V3 α) : α := Scalar.abs v.x + Scalar.abs v.y + Scalar.abs v.z
+
+/-- `Σ ‖(vᵢ − o) × (vⱼ − o)‖₁` over the three vertex pairs of `t` -/
+def coneSpread (o : V3 α) (t : Tri α) : α :=
+  l1 (V3.cross (t.b - o) (t.c - o)) + l1 (V3.cross (t.a - o) (t.c - o)) + l1 (V3.cross (t.a - o) (t.b - o))
+
+def planeEqb (n : V3 α) (d : α) (e : V3 α × α) : Bool := ChainCheck.v3Eqb n e.1 && Scalar.eqb d e.2
+
+/-- the per-triangle part of the certificate -/
+def facetOK (V : List (V3 α)) (eqs : List (V3 α × α)) (o : V3 α) (m R : α) (f : Tri α × V3 α × α) : Bool :=
+  let t := f.1
+  let n := f.2.1
+  let d := f.2.2
+  eqs.any (planeEqb n d) &&
+  V.any (ChainCheck.v3Eqb t.a) && V.any (ChainCheck.v3Eqb t.b) && V.any (ChainCheck.v3Eqb t.c) &&
+  decide (lit 0 < orient o t.a t.b t.c) && decide (planeVal n d o < lit 0) &&
+  [t.a, t.b, t.c].all fun v =>
+    decide (Scalar.abs (planeVal n d v) * (R * coneSpread o t) ≤ orient o t.a t.b t.c * m)
+
+/-- **facet-completeness certificate** -/
+def facetCert (V : List (V3 α)) (eqs : List (V3 α × α)) (ws : List α) (F : List (Tri α × V3 α × α))
+    (m R : α) : Bool :=
+  let o := comb ws V
+  decide (ws.length = V.length) && (ws.all fun w => decide (lit 0 ≤ w)) &&
+  Scalar.eqb (Scalar.sum ws) (lit 1) && decide (lit 0 ≤ m) && !F.isEmpty &&
+  ChainCheck.closedCheck (F.map Prod.fst) && F.all (facetOK V eqs o m R)
 
 /-! ### the vertical line through `p` and a triangle (geometric reading of the winding code) -/
 
